@@ -171,6 +171,18 @@ def check_failed_run(ctx, cfg, res):
 
 
 # ---------------------------------------------------------------- C19
+def _pat(names):
+    """directory / file names reduced to their pattern (random and
+    time-stamp parts taken out) so that labels are the same on every run"""
+    import re
+    out = []
+    for n in names:
+        n = re.sub(r'\d{14}', '<time>', n)
+        n = re.sub(r'_[A-Za-z0-9_]{8}(?=$|/|\.)', '_<random>', n)
+        out.append(n)
+    return sorted(set(out))[:4]
+
+
 def check_clean(ctx, inp, cfg, work, before, res, planted=(),
                 sentinels=()):
     gone = [p for p, content in sentinels
@@ -188,14 +200,14 @@ def check_clean(ctx, inp, cfg, work, before, res, planted=(),
               f'results in it is requested); changed={changed}')
     left = [x for x in ST.listing(work['scratch']) if x not in planted]
     ctx.check(left == [], 'nothing left in the scratch directory after '
-              f'the run returned; left={left[:4]}')
+              f'the run returned; left={_pat(left)}')
     wanted = {os.path.basename(p) for p in (
         cfg['csv_result_path'], cfg['extended_result_path'],
         cfg['log_path'], cfg['hdf5_result_path']) if p}
     extra = [x for x in ST.listing(work['out'])
              if x not in wanted and x not in planted]
     ctx.check(extra == [], 'files are created only at the requested '
-              f'output locations; extra={extra[:4]}')
+              f'output locations; extra={_pat(extra)}')
 
 
 # ---------------------------------------------------------------- C20
